@@ -7,14 +7,21 @@ package bufcas
 // viDigest returns a shake256 Digest: concrete (64 bytes derived from seed) when sym is false, 64 fully symbolic
 // bytes when sym is true.
 func viDigest(sym bool, seed byte) Digest {
-	var value []byte
+	nsym := 0
 	if sym {
-		value = verifNondetBytesN(64)
-	} else {
-		value = make([]byte, 64)
-		for i := range value {
-			value[i] = seed + byte(i)*7
-		}
+		nsym = 64
+	}
+	return viDigestN(nsym, seed)
+}
+
+// viDigestN: the first nsym bytes of the value are symbolic, the rest concrete.
+func viDigestN(nsym int, seed byte) Digest {
+	value := make([]byte, 64)
+	for i := range value {
+		value[i] = seed + byte(i)*7
+	}
+	if nsym > 0 {
+		copy(value, verifNondetBytesN(nsym))
 	}
 	d, err := NewDigest(value)
 	if err != nil {
@@ -114,7 +121,7 @@ func VerifLemma_C08A_FileNodeRoundTrip() {
 // VerifLemma_C08A_DigestRoundTrip: ParseDigest(d.String()) == d for every 64-byte value, and the text is
 // "shake256:" + 128 lower-case hex characters.
 func VerifLemma_C08A_DigestRoundTrip() {
-	d := viDigest(true, 0)
+	d := viDigestN(verifParam("SYMBYTES"), 0)
 	s := d.String()
 	verifCover("digest rendered")
 	verifAssert(len(s) == 9+128, "digest text is shake256: + 128 hex chars")
